@@ -374,6 +374,64 @@ pub fn typed_hostile_message(rng: &mut Rng) -> Vec<u8> {
     m
 }
 
+/// A well-formed message whose names first occur late: a filler record pushes everything
+/// behind offsets 8192 and up to the 16383 a pointer can express, and the records that follow
+/// refer to each other's names through pointers with large targets.
+pub fn late_pointer_message(rng: &mut Rng) -> Vec<u8> {
+    let k = rng.range(2, 6);
+    let mut m = w::header(rng.u16(), 0x8180, [1, 1 + k as u16, 0, 0]);
+    m.extend_from_slice(&[0, 0, 1, 0, 1]); // question: the root name, A
+    // filler: one record of an unknown type
+    let fill = match rng.below(4) {
+        0 => rng.range(8150, 8250),
+        1 => rng.range(16200, 16420),
+        2 => rng.range(4000, 8100),
+        _ => rng.range(8300, 16200),
+    };
+    m.push(0);
+    m.extend_from_slice(&[0xff, 0x00, 0, 1, 0, 0, 0, 1]);
+    m.extend_from_slice(&(fill as u16).to_be_bytes());
+    m.extend(std::iter::repeat(*rng.pick(&[0u8, 0x80, 0xC0, 0x3f])).take(fill));
+    // records whose owner and target names chain onto earlier ones
+    let mut name_starts: Vec<usize> = Vec::new();
+    for i in 0..k {
+        // owner: some labels, then a pointer to an earlier name (or the root label)
+        let mut owner = Vec::new();
+        for _ in 0..rng.range(if name_starts.is_empty() { 1 } else { 0 }, 2) {
+            let l = names::small_label(rng);
+            owner.push(l.len() as u8);
+            owner.extend_from_slice(&l);
+        }
+        match (!name_starts.is_empty() && rng.chance(3, 4)).then(|| *rng.pick(&name_starts)) {
+            Some(t) if t <= 0x3FFF => {
+                owner.push(0xC0 | (t >> 8) as u8);
+                owner.push(t as u8);
+            }
+            _ => owner.push(0),
+        }
+        let here = m.len();
+        m.extend_from_slice(&owner);
+        name_starts.push(here);
+        // NS with a target that is literal labels + pointer to this record's owner
+        let mut target = Vec::new();
+        let l = names::small_label(rng);
+        target.push(l.len() as u8);
+        target.extend_from_slice(&l);
+        if here <= 0x3FFF && rng.chance(3, 4) {
+            target.push(0xC0 | (here >> 8) as u8);
+            target.push(here as u8);
+        } else {
+            target.push(0);
+        }
+        m.extend_from_slice(&[0, if i % 2 == 0 { 2 } else { 5 }, 0, 1, 0, 0, 0, 60]);
+        m.extend_from_slice(&(target.len() as u16).to_be_bytes());
+        let tstart = m.len();
+        m.extend_from_slice(&target);
+        name_starts.push(tstart);
+    }
+    m
+}
+
 /// Random octets with a valid-looking header.
 pub fn random_message(rng: &mut Rng) -> Vec<u8> {
     let len = match rng.below(10) {
